@@ -1,3 +1,337 @@
-/- C18: property theorems (none yet). -/
+/-
+C18 — Default configuration exposes nothing of the host and runs reproducibly.
+
+All theorems are about `Wz.Model.SysDefault` (see its header for what is modelled) and are stated for
+every host record, every random stream `rnd`, and every list of guest calls (any number, any of the
+46 WASI functions, any arguments). `defaults_are_fakes` is the obligation over the tables regenerated
+from /repo on every run (tie A): if a default is replaced by a real host facility it no longer
+evaluates to `allFake`, and every theorem that goes through it breaks with it.
+-/
+import Wz.Model.SysDefault
+
 namespace Wz.C18
+open Wz.Model.SysDefault Wz.Gen.SysDefaults
+
+/-! ### Tie A obligations (decided on the regenerated tables) -/
+
+/-- Every facility a module gets from `wazero.NewModuleConfig()` is the fake one: computed from the
+regenerated defaulting tables of `NewModuleConfig`/`toSysContext`/`NewContext`/`stdinFileEntry`/
+`stdioWriterFileEntry`/`InitFSContext`. (`decide` over a finite regenerated table: a proof.) -/
+theorem defaults_are_fakes : defaultSources = allFake := by decide
+
+/-- The regenerated constants of the fake clocks line up: the first wall-clock reading is the fake
+epoch (midnight UTC 2022-01-01), the first monotonic reading is 0, both advance by 1 ms. -/
+theorem fake_clock_constants :
+    NewFakeWalltime_start + NewFakeWalltime_step = (FakeEpochNanos : Int) ∧
+    NewFakeNanotime_start + NewFakeNanotime_step = 0 ∧
+    NewFakeWalltime_step = (ms : Int) ∧ NewFakeNanotime_step = (ms : Int) ∧
+    FakeEpochNanos = 1640995200 * 1000000000 ∧ ms = 1000000 := by decide
+
+/-- The fake random source is seeded with a compile-time constant. -/
+theorem fake_seed_constant : seed = 42 := by decide
+
+/-! ### The default context never looks at the host -/
+
+/-- The facilities of a default context are the closed, host-free `fakeFacilities`. -/
+theorem default_fac (rnd : Nat → Nat) (h : Host) : (defaultCtx rnd h).fac = fakeFacilities rnd := by
+  simp only [Ctx.fac, defaultCtx, defaults_are_fakes]
+  rfl
+
+/-- The whole trace of a default context is a function of the call list and the constant random
+stream only. -/
+theorem default_trace_closed (rnd : Nat → Nat) (h : Host) (calls : List Call) :
+    trace (defaultCtx rnd h) calls = traceF (fakeFacilities rnd) (initSt (fakeFacilities rnd)) calls := by
+  simp only [trace, default_fac]
+
+theorem default_final_closed (rnd : Nat → Nat) (h : Host) (calls : List Call) :
+    finalSt (defaultCtx rnd h) calls = runF (fakeFacilities rnd) (initSt (fakeFacilities rnd)) calls := by
+  simp only [finalSt, default_fac]
+
+/-- **default_ignores_host.** Two hosts that differ in arguments, environment, working directory,
+clocks, entropy and standard input produce the same trace for every guest call list. -/
+theorem default_ignores_host (rnd : Nat → Nat) (h₁ h₂ : Host) (calls : List Call) :
+    trace (defaultCtx rnd h₁) calls = trace (defaultCtx rnd h₂) calls := by
+  rw [default_trace_closed, default_trace_closed]
+
+/-- …and leave the context in the same state (clock positions, random position, open descriptors,
+effects on the host). -/
+theorem default_ignores_host_state (rnd : Nat → Nat) (h₁ h₂ : Host) (calls : List Call) :
+    finalSt (defaultCtx rnd h₁) calls = finalSt (defaultCtx rnd h₂) calls := by
+  rw [default_final_closed, default_final_closed]
+
+private def hA : Host := ⟨[[97]], [[75, 61, 49]], [47, 97], fun k => 1700000000 + k, fun k => 5 + k, fun i => i % 256, [115]⟩
+private def hB : Host := ⟨[[98]], [[75, 61, 50]], [47, 98], fun k => 1800000000 + 2 * k, fun k => 9 + k, fun i => (i + 1) % 256, [116]⟩
+private def z : Nat → Nat := fun _ => 0
+
+/-- Non-vacuity (sample, a test): the host parameter is live in the model — a context built from the
+real host facilities gives different traces on the two hosts, for each facility. -/
+example : trace (hostCtx z hA) [⟨.clock_time_get, [0, 64]⟩] ≠ trace (hostCtx z hB) [⟨.clock_time_get, [0, 64]⟩] := by decide
+example : trace (hostCtx z hA) [⟨.clock_time_get, [1, 64]⟩] ≠ trace (hostCtx z hB) [⟨.clock_time_get, [1, 64]⟩] := by decide
+example : trace (hostCtx z hA) [⟨.random_get, [64, 2]⟩] ≠ trace (hostCtx z hB) [⟨.random_get, [64, 2]⟩] := by decide
+example : trace (hostCtx z hA) [⟨.args_get, [64, 128]⟩] ≠ trace (hostCtx z hB) [⟨.args_get, [64, 128]⟩] := by decide
+example : trace (hostCtx z hA) [⟨.environ_get, [64, 128]⟩] ≠ trace (hostCtx z hB) [⟨.environ_get, [64, 128]⟩] := by decide
+example : trace (hostCtx z hA) [⟨.fd_read, [0, 8, 1, 64, 4]⟩] ≠ trace (hostCtx z hB) [⟨.fd_read, [0, 8, 1, 64, 4]⟩] := by decide
+example : trace (hostCtx z hA) [⟨.fd_prestat_dir_name, [3, 64, 2]⟩] ≠ trace (hostCtx z hB) [⟨.fd_prestat_dir_name, [3, 64, 2]⟩] := by decide
+example : (finalSt (hostCtx z hA) [⟨.fd_write, [1, 8, 1, 64, 4]⟩]).hostOut = 4 := by decide
+/-- while the default context answers the fixed values (sample, a test) -/
+example : trace (defaultCtx z hA) [⟨.clock_time_get, [0, 64]⟩, ⟨.clock_time_get, [0, 64]⟩] =
+    [ok [(64, le 8 1640995200000000000)], ok [(64, le 8 1640995200001000000)]] := by decide
+
+/-! ### Every instance starts from the same values -/
+
+/-- **per_instance_fresh.** Whatever the host, a new instance starts with both clocks and the random
+stream at position 0 and exactly the descriptors 0, 1, 2; so two instances start from the same values. -/
+theorem per_instance_fresh (rnd : Nat → Nat) (h₁ h₂ : Host) :
+    initSt (defaultCtx rnd h₁).fac = initSt (defaultCtx rnd h₂).fac ∧
+    initSt (defaultCtx rnd h₁).fac =
+      { wallK := 0, monoK := 0, randPos := 0, stdinPos := 0,
+        fds := [(0, .stdin), (1, .stdout), (2, .stderr)], hostOut := 0, slept := 0, yields := 0 } := by
+  simp only [default_fac]
+  exact ⟨trivial, rfl⟩
+
+/-! ### Clock values -/
+
+private theorem wt_recombine (wt : Int) : Int.tdiv wt 1000000000 * 1000000000 + Int.tmod wt 1000000000 = wt :=
+  Int.tdiv_mul_add_tmod wt 1000000000
+
+/-- closed form of a counter that is advanced before it is read, as the 64-bit value the guest sees -/
+private theorem reading_eq (start step : Int) (e m k : Nat) (h1 : start + step = (e : Int)) (h2 : step = (m : Int)) :
+    ((counterReading start step k) % (2 ^ 64 : Int)).toNat = (e + k * m) % 2 ^ 64 := by
+  have hw : counterReading start step k = ((e + k * m : Nat) : Int) := by
+    unfold counterReading
+    rw [Int.add_mul, Int.one_mul, Int.add_comm ((k : Int) * step) step, ← Int.add_assoc, h1, h2,
+      Int.natCast_add, Int.natCast_mul]
+  have h64 : (2 ^ 64 : Int) = ((2 ^ 64 : Nat) : Int) := by rw [Int.natCast_pow]; rfl
+  rw [hw, h64, ← Int.natCast_emod, Int.toNat_natCast]
+
+/-- **clock_values (wall).** The k-th wall-clock reading (k = 0, 1, …) is `FakeEpochNanos + k·1ms`
+as a 64-bit value — for every k, including after the (sec, nsec) split and recombination. -/
+theorem clock_values_wall (k : Nat) : fakeWallNanos k = (FakeEpochNanos + k * ms) % 2 ^ 64 := by
+  unfold fakeWallNanos fakeWalltimeSecNsec
+  simp only [wt_recombine]
+  exact reading_eq _ _ _ _ k fake_clock_constants.1 fake_clock_constants.2.2.1
+
+/-- No wrap-around for the first 1.6·10¹³ readings (more than 500 years of guest time). -/
+theorem clock_values_wall_small (k : Nat) (hk : k < 16000000000000) :
+    fakeWallNanos k = FakeEpochNanos + k * ms := by
+  rw [clock_values_wall]
+  apply Nat.mod_eq_of_lt
+  have h1 : FakeEpochNanos = 1640995200000000000 := rfl
+  have h2 : ms = 1000000 := rfl
+  rw [h1, h2]
+  omega
+
+/-- **clock_values (monotonic).** The k-th monotonic reading is `k·1ms`. -/
+theorem clock_values_mono (k : Nat) : fakeMonoNanos k = (k * ms) % 2 ^ 64 := by
+  unfold fakeMonoNanos
+  have := reading_eq NewFakeNanotime_start NewFakeNanotime_step 0 ms k fake_clock_constants.2.1 fake_clock_constants.2.2.2.1
+  simpa using this
+
+example : fakeWallNanos 0 = 1640995200000000000 ∧ fakeWallNanos 3 = 1640995200003000000 ∧ fakeMonoNanos 0 = 0 ∧
+    fakeMonoNanos 7 = 7000000 := by decide
+
+/-- What the guest sees: in any state of a default context `clock_time_get` stores the reading whose
+index is the number of readings taken so far, and advances that index by one. -/
+theorem clock_time_get_wall (rnd : Nat → Nat) (st : St) (p : Nat) :
+    step (fakeFacilities rnd) st ⟨.clock_time_get, [0, p]⟩ =
+      ({ st with wallK := st.wallK + 1 }, ok [(p, le 8 ((FakeEpochNanos + st.wallK * ms) % 2 ^ 64))]) := by
+  simp [step, clockTimeGet, fakeFacilities, clock_values_wall]
+
+theorem clock_time_get_mono (rnd : Nat → Nat) (st : St) (p : Nat) :
+    step (fakeFacilities rnd) st ⟨.clock_time_get, [1, p]⟩ =
+      ({ st with monoK := st.monoK + 1 }, ok [(p, le 8 ((st.monoK * ms) % 2 ^ 64))]) := by
+  simp [step, clockTimeGet, fakeFacilities, clock_values_mono]
+
+/-- Clock resolutions are the fixed 1 µs / 1 ns. -/
+theorem clock_res_get_fixed (rnd : Nat → Nat) (st : St) (p : Nat) :
+    step (fakeFacilities rnd) st ⟨.clock_res_get, [0, p]⟩ = (st, ok [(p, le 8 1000)]) ∧
+    step (fakeFacilities rnd) st ⟨.clock_res_get, [1, p]⟩ = (st, ok [(p, le 8 1)]) := by
+  simp [step, pureRes, fakeFacilities]
+
+/-- Random bytes are the next `n` bytes of the constant stream. -/
+theorem random_get_stream (rnd : Nat → Nat) (st : St) (buf n : Nat) (hn : n ≠ 0) :
+    step (fakeFacilities rnd) st ⟨.random_get, [buf, n]⟩ =
+      ({ st with randPos := st.randPos + n },
+        ok [(buf, (List.range n).map (fun i => rnd (st.randPos + i) % 256))]) := by
+  simp [step, randomGet, fakeFacilities, hn]
+
+/-! ### Arguments and environment are empty -/
+
+theorem args_environ_empty (rnd : Nat → Nat) (st : St) (p q : Nat) :
+    step (fakeFacilities rnd) st ⟨.args_sizes_get, [p, q]⟩ = (st, ok [(p, le 4 0), (q, le 4 0)]) ∧
+    step (fakeFacilities rnd) st ⟨.environ_sizes_get, [p, q]⟩ = (st, ok [(p, le 4 0), (q, le 4 0)]) ∧
+    step (fakeFacilities rnd) st ⟨.args_get, [p, q]⟩ = (st, ok []) ∧
+    step (fakeFacilities rnd) st ⟨.environ_get, [p, q]⟩ = (st, ok []) := by
+  simp [step, pureRes, fakeFacilities, Wz.Model.SysDefault.sizeOf, nulTerminated, nulTerminated.go]
+
+/-! ### Invariant of every reachable state: stdio only, nothing reaches the host -/
+
+/-- Only stdio descriptors below 3, no byte delivered to the host, no real sleep, no real yield. -/
+def Inv (st : St) : Prop :=
+  (∀ x ∈ st.fds, x.1 < 3 ∧ isStdio x.2 = true) ∧ st.hostOut = 0 ∧ st.slept = 0 ∧ st.yields = 0
+
+theorem inv_init (rnd : Nat → Nat) : Inv (initSt (fakeFacilities rnd)) := by
+  refine ⟨?_, rfl, rfl, rfl⟩
+  intro x hx
+  simp [initSt, initFds, fakeFacilities] at hx
+  rcases hx with rfl | rfl | rfl <;> simp [isStdio]
+
+/-- One call preserves the invariant (the descriptor table can only shrink). -/
+theorem step_preserves (rnd : Nat → Nat) (st : St) (c : Call) :
+    let s' := (step (fakeFacilities rnd) st c).1
+    (∀ x ∈ s'.fds, x ∈ st.fds) ∧ s'.hostOut = st.hostOut ∧ s'.slept = st.slept ∧ s'.yields = st.yields := by
+  unfold step
+  split
+  · unfold clockTimeGet; repeat' split
+    all_goals simp
+  · unfold randomGet; split <;> simp
+  · unfold schedYield; split <;> simp [fakeFacilities]
+  · unfold fdRead; repeat' split
+    all_goals simp
+  · unfold fdWrite; repeat' split
+    all_goals simp_all [fakeFacilities]
+  · unfold pollOneoff; repeat' split
+    all_goals simp_all [fakeFacilities]
+  · unfold fdClose; repeat' split
+    all_goals simp
+    intro a b hm _; exact hm
+  · unfold fdFilestatSetTimes; repeat' split
+    all_goals simp
+  · unfold pathFilestatSetTimes; repeat' split
+    all_goals simp
+  · simp
+
+theorem step_inv (rnd : Nat → Nat) (st : St) (c : Call) (h : Inv st) : Inv (step (fakeFacilities rnd) st c).1 := by
+  obtain ⟨h1, h2, h3, h4⟩ := h
+  obtain ⟨p1, p2, p3, p4⟩ := step_preserves rnd st c
+  exact ⟨fun x hx => h1 x (p1 x hx), by omega, by omega, by omega⟩
+
+theorem run_inv (rnd : Nat → Nat) (calls : List Call) : ∀ st, Inv st → Inv (runF (fakeFacilities rnd) st calls) := by
+  induction calls with
+  | nil => intro st h; exact h
+  | cons c rest ih =>
+    intro st h
+    simp only [runF]
+    split
+    · exact step_inv rnd st c h
+    · exact ih _ (step_inv rnd st c h)
+
+/-- Every state a default context can reach satisfies the invariant. -/
+theorem reachable_inv (rnd : Nat → Nat) (h : Host) (calls : List Call) : Inv (finalSt (defaultCtx rnd h) calls) := by
+  rw [default_final_closed]
+  exact run_inv rnd calls _ (inv_init rnd)
+
+/-- **stdout_discarded** (and real sleep / yield never happen): after any guest run nothing was
+delivered to the host's stdout/stderr, no nanosecond was really slept, the scheduler was never really
+yielded to. -/
+theorem stdout_discarded (rnd : Nat → Nat) (h : Host) (calls : List Call) :
+    (finalSt (defaultCtx rnd h) calls).hostOut = 0 ∧ (finalSt (defaultCtx rnd h) calls).slept = 0 ∧
+    (finalSt (defaultCtx rnd h) calls).yields = 0 :=
+  (reachable_inv rnd h calls).2
+
+/-- …while the guest is told that everything was written. -/
+theorem fd_write_reports_all (rnd : Nat → Nat) (st : St) (p n : Nat) (iov : List Nat) (iovs : List (Nat × Nat))
+    (hp : pairs iov = some iovs) (hk : st.kind? 1 = some .stdout) :
+    step (fakeFacilities rnd) st ⟨.fd_write, 1 :: p :: n :: iov⟩ = (st, ok [(p, le 4 ((iovs.map (·.2)).sum))]) := by
+  simp [step, fdWrite, hp, hk, fakeFacilities]
+
+private theorem readv_empty (pos : Nat) (iovs : List (Nat × Nat)) : readvFrom [] pos iovs = ([], 0) := by
+  induction iovs generalizing pos with
+  | nil => rfl
+  | cons x rest ih =>
+    obtain ⟨p, l⟩ := x
+    unfold readvFrom
+    by_cases hl : l = 0
+    · simp [hl, ih]
+    · have : 0 < l := by omega
+      simp [hl, this]
+
+/-- **stdin_eof.** Reading standard input returns 0 bytes and writes no data, whatever the iovecs and
+however often. -/
+theorem stdin_eof (rnd : Nat → Nat) (st : St) (p n : Nat) (iov : List Nat) (iovs : List (Nat × Nat))
+    (hp : pairs iov = some iovs) (hk : st.kind? 0 = some .stdin) :
+    step (fakeFacilities rnd) st ⟨.fd_read, 0 :: p :: n :: iov⟩ = (st, ok [(p, le 4 0)]) := by
+  simp [step, fdRead, hp, hk, fakeFacilities, readv_empty]
+
+example : (initSt (fakeFacilities z)).kind? 0 = some .stdin ∧ pairs [64, 10, 80, 0] = some [(64, 10), (80, 0)] := by decide
+
+/-- No `fd_read`/`fd_pread` on any descriptor, in any state, ever delivers a byte: the only thing
+written is a zero count. -/
+theorem no_read_delivers_data (rnd : Nat → Nat) (st : St) (a : List Nat) (pread : Bool) :
+    let r := (step (fakeFacilities rnd) st ⟨if pread then .fd_pread else .fd_read, a⟩).2
+    r.writes = [] ∨ ∃ p, r.writes = [(p, le 4 0)] := by
+  cases pread
+  · simp only [Bool.false_eq_true, if_false, step]
+    unfold fdRead
+    repeat' split
+    all_goals simp_all [fakeFacilities, readv_empty, ok, err, badCall]
+  · simp only [if_true, step]
+    cases a with
+    | nil => simp [pureRes, badCall]
+    | cons fd a =>
+    cases a with
+    | nil => simp [pureRes, badCall]
+    | cons p a =>
+    cases a with
+    | nil => simp [pureRes, badCall]
+    | cons n iov =>
+      simp only [pureRes]
+      repeat' split
+      all_goals simp_all [ok, err, badCall]
+
+/-- **no_preopens.** In every reachable state `fd_prestat_get` of any descriptor ≥ 3 is EBADF: there is
+no pre-opened directory. -/
+theorem no_preopens (rnd : Nat → Nat) (h : Host) (calls : List Call) (fd p : Nat) (hfd : 3 ≤ fd) :
+    (step (fakeFacilities rnd) (finalSt (defaultCtx rnd h) calls) ⟨.fd_prestat_get, [fd, p]⟩).2 = err ErrnoBadf := by
+  have hi := (reachable_inv rnd h calls).1
+  have hk : (finalSt (defaultCtx rnd h) calls).kind? fd = none := by
+    unfold St.kind?
+    cases hf : List.find? (fun x => x.1 == fd) (finalSt (defaultCtx rnd h) calls).fds with
+    | none => rfl
+    | some x =>
+      have hm := List.mem_of_find?_eq_some hf
+      have he := List.find?_some hf
+      have := (hi x hm).1
+      simp at he
+      omega
+  simp [step, pureRes, hk]
+
+private theorem kind_stdio (st : St) (hi : Inv st) (fd : Nat) (k : FdKind) (hk : st.kind? fd = some k) : isStdio k = true := by
+  unfold St.kind? at hk
+  cases hf : List.find? (fun x => x.1 == fd) st.fds with
+  | none => simp [hf] at hk
+  | some x =>
+    simp [hf] at hk
+    have hm := List.mem_of_find?_eq_some hf
+    rw [← hk]
+    exact (hi.1 x hm).2
+
+private theorem atPath_fails (st : St) (hi : Inv st) (fd : Nat) : atPathErr st fd = ErrnoBadf ∨ atPathErr st fd = ErrnoNotdir := by
+  unfold atPathErr
+  cases hk : st.kind? fd with
+  | none => simp
+  | some k =>
+    have := kind_stdio st hi fd k hk
+    cases k <;> simp_all [isStdio]
+
+/-- **no_files.** In every reachable state `path_open` (on any descriptor, any path) fails with EBADF
+or ENOTDIR and opens nothing; so the descriptor table never grows (see `step_preserves`). -/
+theorem path_open_fails (rnd : Nat → Nat) (h : Host) (calls : List Call) (fd : Nat) :
+    let r := step (fakeFacilities rnd) (finalSt (defaultCtx rnd h) calls) ⟨.path_open, [fd]⟩
+    (r.2 = err ErrnoBadf ∨ r.2 = err ErrnoNotdir) ∧ r.1 = finalSt (defaultCtx rnd h) calls := by
+  have hi := reachable_inv rnd h calls
+  rcases atPath_fails _ hi fd with e | e <;> simp [step, pureRes, e]
+
+/-- **no_sockets.** `sock_accept`/`sock_recv`/`sock_send`/`sock_shutdown` are EBADF in every state. -/
+theorem sock_fails (rnd : Nat → Nat) (st : St) (fd : Nat) :
+    (step (fakeFacilities rnd) st ⟨.sock_accept, [fd]⟩).2 = err ErrnoBadf ∧
+    (step (fakeFacilities rnd) st ⟨.sock_recv, [fd]⟩).2 = err ErrnoBadf ∧
+    (step (fakeFacilities rnd) st ⟨.sock_send, [fd]⟩).2 = err ErrnoBadf ∧
+    (step (fakeFacilities rnd) st ⟨.sock_shutdown, [fd]⟩).2 = err ErrnoBadf := by
+  simp [step, pureRes]
+
+/-- A 5-second `poll_oneoff` clock subscription returns at once with the event and sleeps 0 ns. -/
+example : let r := step (fakeFacilities z) (initSt (fakeFacilities z)) ⟨.poll_oneoff, [256, 8, 1, 77, 0, 0, 5000000000, 0]⟩
+    r.2.errno = 0 ∧ r.1.slept = 0 := by decide
+
 end Wz.C18
